@@ -330,3 +330,41 @@ RULES.append(r_client_failures)
 from .shm import r_server_shutdown  # noqa: E402
 RULES.append(r_server_shutdown)
 RULES.append(lazy("C10", "r4_r6_outputs", "a generator task yielding fewer or more values than it declares must fail (TaskFailure): its last output is never published otherwise and the controller waits for ever"))
+
+
+def r8_shutdown_after_a_host_was_forgotten(ctx):
+    """C05.R8: `recv_events` forgets an executor that reported its own exit / failure (it is gone from the sender's table) and then calls
+    `shutdown`.  History on the real shutdown: hosts H1 and H10 registered, H1 already forgotten by the sender (its heartbeat record may well
+    still exist).  The shutdown command must go to exactly the executors the sender still knows — H10 — and the wait must end when H10 has
+    confirmed; addressing H1 fails inside the sender (KeyError) before H10 is told anything, and H10 keeps running with its workers and
+    segments after the controller is gone."""
+    from ..evalx import AnyKeyDict  # noqa: F401
+    from .common import host_entry as _he
+    repo = ctx.repo
+    fi = repo.func(f"{BR}.shutdown")
+    ctx.analysed(fi.qual)
+    gw = lambda n: Obj("cascade.executor.comms.GraceWatcher", {}, name=n)
+    env = {"self.sender.hosts": {"H10": _he(repo, "s", "b"), "data.H10": _he(repo, "s", "b")},
+           "self.heartbeat_checker": {"H1": gw("gw1"), "H10": gw("gw10")}}
+    ex = Obj(MSG + "ExecutorExit", {"host": "H10"}, name="exit-H10")
+    ip = Interp(repo, max_while=3, max_concrete_iter=8, call_models={
+        "cascade.executor.comms.Listener.recv_messages": lambda run, a, k, n, f: [ex] if not getattr(run, "model_sent", False) and not setattr(run, "model_sent", True) else [],
+        "time.time_ns": lambda run, a, k, n, f: 1})
+    n = 0
+    for p in ip.explore(fi, env=env):
+        n += 1
+        sends = [e for e in p.effects if (is_call(e, qual=f"{BR}._send") or (e.kind == "call" and e.data.get("method") == "send" and "sender" in vkey(e.data.get("recv"))))
+                 and e.data["args"] and isinstance(e.data["args"][-1], Obj) and e.data["args"][-1].cls == MSG + "ExecutorShutdown"]
+        to = sorted({vkey(e.data["args"][0]).strip("'") for e in sends})
+        spin = any(e.kind == "loop_exit" and e.data.get("bound") for e in p.effects) or p.exit[0] == "trunc"
+        if p.exit[0] != "return" or to != ["H10"] or spin:
+            ctx.violation("C05.R8", fi.qual, loc(fi), "shutdown reaches exactly the executors still known",
+                          f"H1 reported its failure and was forgotten by the sender, H10 is alive: shutdown addresses {to} and ends with {p.exit[0]}"
+                          f"{' (still waiting after H10 confirmed)' if spin else ''}; expected the command to H10 only and a normal return — a command addressed to a host the "
+                          f"sender no longer knows fails before the live executors are told to stop")
+        else:
+            ctx.ok("C05.R8", loc(fi), "shutdown after H1 was forgotten: command to H10 only, wait ends on its confirmation")
+    ctx.floor("C05.R8.paths", n, 1)
+
+
+RULES.append(r8_shutdown_after_a_host_was_forgotten)
